@@ -63,6 +63,7 @@ func checkC02(c *core.Ctx) {
 	r3 := c.Rule("R2.3", "T", "read-only accessors write nothing reachable from their receiver or arguments")
 	r4 := c.Rule("R2.4", "T", "no ambient nondeterminism on decode / read-only paths")
 	appendIntoInput(c, c.Rule("R2.7", "T", "no append in decode code has as destination a slice of the packet bytes held in a field (its spare capacity is the rest of the packet)"))
+	noSliceExtension(c, c.Rule("R2.8", "T", "decode code reads no byte outside its input (= R4.5): no slice it was given is extended to its capacity, whose contents depend on where the bytes happen to live"))
 	r6 := c.Rule("R2.6", "T", "memory taken from a sync.Pool on the decode path is not handed back while a decoded value still refers to it")
 	{
 		roots := p.Roots()
